@@ -72,6 +72,9 @@ class Node(object):
 
 Edge = collections.namedtuple('Edge', 'src dst kind')
 
+# work counters of one run (reported as evidence)
+STATS = {'queries': 0, 'visited': 0, 'cfgs': 0, 'cfg_nodes': 0}
+
 
 class _Loop(object):
     def __init__(self, head):
@@ -112,6 +115,8 @@ class CFG(object):
         self.raise_exit = self._new('raise')
         stubs = self._block(body, [(self.entry, 'seq')], [])
         self._connect(stubs, self.exit)
+        STATS['cfgs'] += 1
+        STATS['cfg_nodes'] += len(self.nodes)
 
     # -- construction helpers ---------------------------------------------
     def _new(self, kind, node=None, note=None):
@@ -391,8 +396,10 @@ def reach(starts, blocked=(), edge_ok=None, backward=False):
     blocked = set(blocked)
     seen = set(starts)
     stack = list(starts)
+    STATS['queries'] += 1
     while stack:
         node = stack.pop()
+        STATS['visited'] += 1
         for edge in (node.pred if backward else node.succ):
             if edge_ok is not None and not edge_ok(edge):
                 continue
@@ -466,6 +473,7 @@ def explore(cfg, init_states, step, start=None, edge_ok=None, limit=400000):
     """
     start = start or cfg.entry
     reached = {}
+    STATS['queries'] += 1
     work = collections.deque()
     for state in init_states:
         key = (start, state)
@@ -475,6 +483,7 @@ def explore(cfg, init_states, step, start=None, edge_ok=None, limit=400000):
     while work:
         key = work.popleft()
         node, state = key
+        STATS['visited'] += 1
         for edge in node.succ:
             if edge_ok is not None and not edge_ok(edge):
                 continue
